@@ -309,8 +309,10 @@ def build_cubed(prog, spec, ctx: Optional[BuildCtx] = None):
     while len(STORE_TARGETS_BY_BUILD) > 16:
         STORE_TARGETS_BY_BUILD.pop(next(iter(STORE_TARGETS_BY_BUILD)))
     try:
-        for inp in prog["inputs"]:
-            arrs.append(build_input(inp, spec, ctx))
+        for k_, inp in enumerate(prog["inputs"]):
+            # a check may give every input its own (equal) Spec object: ctx.input_specs
+            sp_ = ctx.input_specs[k_ % len(ctx.input_specs)] if getattr(ctx, "input_specs", None) else spec
+            arrs.append(build_input(inp, sp_, ctx))
         for node in prog["nodes"]:
             op = OPS[node["op"]]
             arrs.append(op.cub(xp, [arrs[i] for i in node["args"]], node["params"]))
